@@ -287,7 +287,7 @@ def split(ctx, nodes, ro, acc):
     if key in ctx.cache:
         return ctx.cache[key]
     res = None
-    case = dict(ctx.base, op="subset", nodes=list(nodes), ro=ro, ru=True, via="tc", record=False)
+    case = dict(ctx.base, op="split", nodes=list(nodes), ro=ro)
     try:
         out = ctx.tc.copy()
         out.subset(list(nodes), record_provenance=False, reorder_populations=ro)
@@ -820,6 +820,8 @@ def replay(case):
     op = case["op"]
     if op == "subset":
         do_subset(ctx, case["nodes"], case["ro"], case["ru"], case["via"], acc, case.get("record", False))
+    elif op == "split":
+        split(ctx, case["nodes"], case["ro"], acc)
     elif op == "canon":
         do_canon(ctx, case["nodes"], case["ru"], acc)
     elif op == "union":
